@@ -74,11 +74,26 @@ CLAIMED.update({
    technique="runtime metamorphic monitor: every operation template is instantiated with its operand supplied through each provenance (variable, element, map entry, member, struct field, script call, Go call returning interface{}, parentheses, ternary, ??, parameter, var, channel receive, module member, multi-result) and must agree with the plain-variable instantiation in outcome class, value, dynamic type, identity and side effects",
    text="203 operation templates x 27 operand kinds x 21 provenance atoms: every (template, value, atom) is enumerated completely each run; chains of length 2-3 are PRNG-sampled (thorough: all length-2 chains); each instantiation runs in a fresh environment with fresh operand objects; effects are observed from Go after the run.",
    note="Trusted: the variable instantiation as reference (so a defect that affects all provenances alike is out of this check's reach — other properties cover those). Excluded: a,b = <index expr> (comma-ok statement by grammar), &X, the value of X++ / X op= e, stores needing an assignable target, struct value field stores through boxing provenances."),
+ "C11": dict(
+   cat="exploration", ref="DESIGN.md section 3, C11",
+   technique="runtime recorder monitor: Go functions manufactured with reflect.MakeFunc record exactly what they receive and how often; conversions, round trips, member access, methods and callbacks are compared with Go's own reflect conversions and identities",
+   text="An exhaustive conversion matrix (129 source values x 52 target types x 11 call forms covering fixed/variadic functions x plain/spread calls) requires: conversion exists for all arguments => the recorder is invoked exactly once with deeply equal, identically typed arguments and all results come back; otherwise an error and zero invocations. Round trips of 62 Go types through 13 routes keep dynamic type, value and pointer/channel identity; exported (also promoted) fields are read and written through pointers, value- and pointer-receiver methods are called with the supplied arguments; script callbacks of 14 func types receive what Go passes and their results are converted or refused.",
+   note="Trusted: reflect's ConvertibleTo/Convert as 'Go's own conversion'. Excluded: string to uint8/int32 (documented rune path), pointer-to-pointer of other types, arrays, surplus spread elements, functions typed like the VM-function protocol."),
  "C12": dict(
    cat="exploration", ref="DESIGN.md section 3, C12",
    technique="history + executable model: every env API call of generated and exhaustively enumerated histories is applied to the real package and to a chain-of-dictionaries model; results and the complete observable state of every live scope are compared after every call",
    text="All operation sequences of length 4 (5 in thorough) over a 22-op value alphabet and a 15-op type alphabet are enumerated completely; random histories of 40-200 calls over all 26 API entry points on a forest of up to 12 scopes with dotted names, module names and external lookups; after every call results and full state (symbols, Get/Type of every pool name from every scope, copy independence) are compared; every call runs under recover; failing histories are shrunk.",
    note="Trusted: the 120-line dictionary model. Accepted both ways: path lookup when the nearest binding is a non-module but an outer module exists; Set/DeleteGlobal under an external lookup that supplies the name; Addr's unaddressable errors."),
+ "C13": dict(
+   cat="exploration", ref="DESIGN.md section 3, C13",
+   technique="controlled scheduling + linearizability checking (porcupine) of recorded call/return histories, on a scratch copy of the repository whose env mutex operations are rewritten into scheduling points; plus the Go race detector under stress on the real package",
+   text="(a) Configurations of 2-3 goroutines x 2-4 environment operations on a shared scope with a read-only parent: every schedule with at most 2 preemptions at lock-acquisition granularity is enumerated depth-first (configurations finished under the cap are counted as exhaustive within the bound), plus random schedules; each execution yields a history on the scheduler's logical clock, closed by a read of the final state, checked by porcupine against a sequential dictionary model; nothing enabled with goroutines unfinished = deadlock. (b) 8-32 goroutines x hundreds of mixed operations (all sixteen, incl. DeepCopy, NewModule, GetEnvFromPath, Addr) under -race at GOMAXPROCS 2 and 16; reports are collected from the race log and de-duplicated by the pair of innermost anko functions.",
+   note="Trusted: the go/ast rewrite of sync.RWMutex/sync.Mutex in env/*.go (regenerated from the current tree on every run; no mutex found = the check fails to build, never passes), the simulated writer-preferring RW lock, porcupine. A missing lock leaves no scheduling point and is therefore the race phase's business, not the scheduler's."),
+ "C15": dict(
+   cat="exploration", ref="DESIGN.md section 3, C15",
+   technique="runtime monitor of parser.ParseSrc over generated, mutated and hand-built hostile inputs: panic capture, CPU/allocation budget per input (termination), error type and position range, determinism (sequential and concurrent under -race), and the compositional law on pairs of valid programs checked node by node with shifted positions",
+   text="22 scanner-bookkeeping families (unterminated strings/comments at every offset, CR/LF mixes, invalid UTF-8, NUL, 20000-deep nesting, 64 KB tokens, operators split by EOF), every corpus script with all prefixes/suffixes, the complete square of ~120 valid edge texts plus edge x corpus pairs, token/byte soup, a grammar-directed generator and 11 mutators, random valid pairs, and 8-goroutine concurrent parses in the race build.",
+   note="Trusted: astx reflection dump for tree identity; 'terminates' is restated as 20 CPU-seconds / 1 GiB allocated per input (normal: < 5 ms), decided on CPU time. Lines are counted as count(newline)+1; columns in bytes (the more permissive unit)."),
  "C17": dict(
    cat="exploration", ref="DESIGN.md section 3, C17",
    technique="runtime structural monitor: the node set and parent relation computed by reflection (independent of astutil) is compared with what astutil.Walk presents; callback failure injected at every position",
